@@ -242,18 +242,3 @@ func classifyMutant(c sqlCase, target stmt, ns *server.Namespace) string {
 	}
 	return ""
 }
-
-// classifyPanic maps a runtime panic of the fingerprint to a known finding ("" = none).
-// F11: the output buffer of GetFingerprint has len(query)+2 bytes, but collapsing a short list
-// ("in(0)" -> "in(?+)") and the blanks it inserts can make the fingerprint longer than the query.
-func classifyPanic(s stmt, p string) string {
-	if !strings.Contains(p, "out of range") {
-		return ""
-	}
-	for _, t := range s.Toks {
-		if t.R == "inopen" || t.R == "valopen" {
-			return "C36-F11"
-		}
-	}
-	return ""
-}
